@@ -18,7 +18,8 @@ def sh(cmd, cwd=None, timeout=1800):
 
 def main():
     pid, i = sys.argv[1], sys.argv[2]
-    tier = sys.argv[3] if len(sys.argv) > 3 else "quick"
+    tier = "quick"
+    tag = sys.argv[3] if len(sys.argv) > 3 else ""
     src = f"/tmp/wt/{pid}.out"
     patch = f"{src}/patch{i}.diff"
     meta = json.load(open(f"{src}/meta{i}.json"))
@@ -26,9 +27,9 @@ def main():
     if not demos:
         print("no demo"); sys.exit(2)
     demo = demos[0]
-    dest = f"/verif/seeded/{pid}-{i}"
+    dest = f"/verif/seeded/{pid}-{tag}{i}"
     os.makedirs(dest, exist_ok=True)
-    wt = f"/tmp/ev-{pid}-{i}"
+    wt = f"/tmp/ev-{pid}-{tag}{i}"
     sh(f"git -C /repo worktree remove --force {wt}")
     rc, out = sh(f"git -C /repo worktree add --detach {wt} HEAD")
     assert rc == 0, out
@@ -95,6 +96,6 @@ def main():
          "confirmation": rec, "what_i_ran": ran, "check_result": check,
          "caught": bool(check) and check.get("exit") == 1}
     json.dump(m, open(f"{dest}/meta.json", "w"), indent=1)
-    print(json.dumps({"id": f"{pid}-{i}", "confirmed": confirmed, "rec": {k: v for k, v in rec.items() if k not in ("demo_output_tail",)}, "check_exit": check.get("exit"), "sigs": check.get("violation_lines")}, indent=1))
+    print(json.dumps({"id": f"{pid}-{tag}{i}", "confirmed": confirmed, "rec": {k: v for k, v in rec.items() if k not in ("demo_output_tail",)}, "check_exit": check.get("exit"), "sigs": check.get("violation_lines")}, indent=1))
 
 main()
